@@ -90,6 +90,7 @@ func runC01(w *World, r *Report, tier string) {
 	r.Rule("R10", "independent emission: in a hand-written MarshalXML the tokens written for a field remain reachable when every edge asserting the non-emptiness of a different field is deleted — no field is written only when another one is set")
 	r.Rule("R9", "emission guards: in a hand-written MarshalXML every branch condition that depends on a field of the value is a plain emptiness test of that field (== \"\", == 0, len == 0, IsZero, is-set flag) — a guard on a derived value drops some non-empty values")
 
+	c01Decoders(w, r)
 	rows, problems := w.registryRows()
 	for i, p := range problems {
 		r.Undecided("R1", fmt.Sprintf("registry#unreadable-row#%d", i+1), p, p)
